@@ -46,6 +46,8 @@ class Combination(object):
         specifiers.set_signature_forger(self, self.get_signature,
                                         emulate=False)
 
+    __signature__ = specifiers.as_forged
+
     def __call__(self, arg, *args, **kwargs):
         for function in self.functions:
             arg = function(arg, *args, **kwargs)
@@ -53,7 +55,7 @@ class Combination(object):
 
     def get_signature(self, obj):
         return signatures.merge(
-            signatures.signature(self),
+            signatures.signature(self.__call__),
             *(specifiers.signature(func) for func in self.functions)
             )
 
